@@ -109,6 +109,7 @@ type Ctx struct {
 	trackedByKey map[string]string
 	loopCallees    map[string][]*ssa.CallCommon
 	loopAllUnknown map[string]bool
+	lastCallName   string // debugging: the call being executed
 	inCalleeHavoc  bool
 	localObjs      []localObj
 	esc            *escInfo
@@ -372,12 +373,31 @@ func (c *Ctx) havocAllCallees(st *State, ccs []*ssa.CallCommon) {
 		if !strings.HasPrefix(n, "Cnt_") && !strings.HasPrefix(n, "Last_") && !strings.HasPrefix(n, "CntFail_") {
 			continue
 		}
-		tracked := c.trackedByKey[strings.TrimPrefix(strings.TrimPrefix(strings.TrimPrefix(n, "CntFail_"), "Cnt_"), "Last_")]
+		key := strings.TrimPrefix(strings.TrimPrefix(strings.TrimPrefix(n, "CntFail_"), "Cnt_"), "Last_")
+		tracked := c.trackedByKey[key]
+		if tracked == "" {
+			// a traced function that has not been called (yet): resolve its name from the contract
+			if ct := c.W.Contracts[ShortName(c.Top)]; ct != nil {
+				for nm := range ct.Trace {
+					if sanitize(nm) == key {
+						tracked = nm
+						c.trackedByKey[key] = nm
+					}
+				}
+			}
+		}
 		reach := tracked == ""
 		for _, cc := range ccs {
 			if tracked != "" && c.mayReach(cc, tracked) {
 				reach = true
 			}
+		}
+		if os.Getenv("GOVC_DEBUG") != "" && reach && !c.scan {
+			var nms []string
+			for _, cc := range ccs {
+				nms = append(nms, calleeName(cc))
+			}
+			fmt.Fprintf(os.Stderr, "[counter-lost] %s tracked=%q callees=%v\n", n, tracked, nms)
 		}
 		if !reach {
 			keep[n] = c.getHeap(st, n)
@@ -406,6 +426,9 @@ func (c *Ctx) havocAll(st *State) {
 		for _, k := range c.active {
 			c.loopAll[k] = true
 			if !c.inCalleeHavoc {
+				if os.Getenv("GOVC_DEBUG") != "" && !c.loopAllUnknown[k] {
+					fmt.Fprintf(os.Stderr, "[loop-havoc-all] %s: %s\n", k, c.lastCallName)
+				}
 				c.loopAllUnknown[k] = true
 			}
 		}
